@@ -2,6 +2,7 @@
 // Unit vbadec: [MS-OVBA] 2.4.1 decompression (src/cfb.rs decompress_stream) and dir-stream record helpers (src/vba.rs), verbatim text.
 #![allow(unused_imports, dead_code, unused_variables, unused_mut, unused_assignments)]
 use vstd::prelude::*;
+use vstd::std_specs::iter::IteratorSpec;
 
 verus! {
 
@@ -11,19 +12,400 @@ verus! {
 
 //@@ include common/bytes.rs
 
+// TRUSTED: a Rust slice never spans more than isize::MAX bytes (std::slice documentation, "the total size len * size_of::<T>() of the slice must be no larger than isize::MAX")
+#[verifier::external_body]
+pub proof fn axiom_slice_len_isize(s: &[u8])
+    ensures s@.len() <= isize::MAX,
+{}
+
+pub open spec fn p2(k: nat) -> nat decreases k { if k == 0 { 1 } else { 2 * p2((k - 1) as nat) } }
+
+proof fn lemma_p2_vals()
+    ensures p2(0) == 1, p2(1) == 2, p2(2) == 4, p2(3) == 8, p2(4) == 16, p2(5) == 32, p2(6) == 64, p2(7) == 128, p2(8) == 256,
+        p2(9) == 512, p2(10) == 1024, p2(11) == 2048, p2(12) == 4096, p2(13) == 8192, p2(14) == 16384, p2(15) == 32768, p2(16) == 65536,
+{
+    reveal_with_fuel(p2, 18);
+}
+
+proof fn lemma_shl_p2(k: u16)
+    requires k <= 15
+    ensures (1u16 << k) == p2(k as nat)
+{
+    lemma_p2_vals();
+    assert(1u16 << 0u16 == 1 && 1u16 << 1u16 == 2 && 1u16 << 2u16 == 4 && 1u16 << 3u16 == 8 && 1u16 << 4u16 == 16 && 1u16 << 5u16 == 32 && 1u16 << 6u16 == 64 && 1u16 << 7u16 == 128
+        && 1u16 << 8u16 == 256 && 1u16 << 9u16 == 512 && 1u16 << 10u16 == 1024 && 1u16 << 11u16 == 2048 && 1u16 << 12u16 == 4096 && 1u16 << 13u16 == 8192 && 1u16 << 14u16 == 16384 && 1u16 << 15u16 == 32768) by (bit_vector);
+}
+
+/// [MS-OVBA] 2.4.1.3.19.1 CopyToken: Length = (Token & LengthMask) + 3 with LengthMask = 0xFFFF >> BitCount, i.e. the low 16-BitCount bits
+pub open spec fn tok_len(tok: int, bc: nat) -> int { tok % (p2((16 - bc) as nat) as int) + 3 }
+/// Offset = ((Token & OffsetMask) >> (16 - BitCount)) + 1, i.e. the high BitCount bits
+pub open spec fn tok_off(tok: int, bc: nat) -> int { tok / (p2((16 - bc) as nat) as int) + 1 }
+
+proof fn lemma_tok_bits(token: u16, bc: u16)
+    requires 4 <= bc <= 15
+    ensures
+        (token & (0xFFFFu16 >> bc)) as int == tok_len(token as int, bc as nat) - 3,
+        ((token & !(0xFFFFu16 >> bc)) >> ((16 - bc) as u16)) as int == tok_off(token as int, bc as nat) - 1,
+        3 <= tok_len(token as int, bc as nat) <= p2((16 - bc) as nat) + 2,
+        1 <= tok_off(token as int, bc as nat) <= p2(bc as nat),
+{
+    assert((token & (0xFFFFu16 >> bc)) == token % (1u16 << ((16 - bc) as u16))) by (bit_vector) requires 4 <= bc <= 15;
+    assert(((token & !(0xFFFFu16 >> bc)) >> ((16 - bc) as u16)) == token / (1u16 << ((16 - bc) as u16))) by (bit_vector) requires 4 <= bc <= 15;
+    lemma_shl_p2((16 - bc) as u16);
+    lemma_p2_vals();
+    let m = p2((16 - bc) as nat) as int;
+    assert(m * p2(bc as nat) == 65536) by {
+        if bc == 4 {} else if bc == 5 {} else if bc == 6 {} else if bc == 7 {} else if bc == 8 {} else if bc == 9 {} else if bc == 10 {} else if bc == 11 {} else if bc == 12 {} else if bc == 13 {} else if bc == 14 {} else {}
+    }
+    assert((token as int) / m < p2(bc as nat)) by (nonlinear_arith) requires m > 0, m * p2(bc as nat) == 65536, 0 <= token as int, (token as int) < 65536;
+}
+
+/// the table `POWER_2` of decompress_stream is 2^k
+pub open spec fn is_p2_table(t: [usize; 16]) -> bool { forall|k: int| 0 <= k < 16 ==> t[k] == p2(k as nat) }
+
+// =====================================================================================================================
+// [MS-OVBA] 2.4.1 as mathematics over Seq<u8> (written from the format text, not from the code)
+// =====================================================================================================================
+
+/// u16 little endian at position p
+pub open spec fn u16_at(s: Seq<u8>, p: int) -> int { s[p] as int + 256 * (s[p + 1] as int) }
+/// CompressedChunkHeader (2.4.1.1.5): bits 0..11 CompressedChunkSize = chunk bytes - 3, bits 12..14 signature 0b011, bit 15 CompressedChunkFlag
+pub open spec fn hdr_size(h: int) -> int { h % 4096 }
+pub open spec fn hdr_sig(h: int) -> int { (h / 4096) % 8 }
+pub open spec fn hdr_compressed(h: int) -> bool { h / 32768 == 1 }
+/// FlagByte bit k, least significant first: true = CopyToken, false = LiteralToken (2.4.1.1.7)
+pub open spec fn flag_bit(flags: u8, k: int) -> bool { (flags as int / (p2(k as nat) as int)) % 2 == 1 }
+
+/// CopyToken help (2.4.1.3.19.1): BitCount = max(ceil(log2(difference)), 4) = the least b >= 4 with 2^b >= difference
+pub open spec fn bit_count_from(d: int, b: nat) -> nat
+    decreases 16 - b
+{
+    if b >= 16 || p2(b) >= d { b } else { bit_count_from(d, b + 1) }
+}
+pub open spec fn copy_bit_count(d: int) -> nat { bit_count_from(d, 4) }
+
+/// byte-by-byte copy of n bytes from `off` bytes back (2.4.1.3.11 Byte Copy): overlapping copies repeat
+pub open spec fn copy_bytes(out: Seq<u8>, off: int, n: int) -> Seq<u8>
+    decreases n
+{
+    if n <= 0 { out } else { copy_bytes(out.push(out[out.len() - off]), off, n - 1) }
+}
+
+/// TokenSequences of one compressed chunk: data bytes [p, e); `flags`/`k` = current FlagByte and the index of its next bit
+/// (k == 8: a new FlagByte is due); `out` = whole decompressed buffer, `start` = DecompressedChunkStart.
+/// None = malformed (token crosses the chunk end, copy offset reaches before the chunk's start).
+pub open spec fn dec_toks(s: Seq<u8>, p: int, e: int, flags: u8, k: int, out: Seq<u8>, start: int) -> Option<Seq<u8>>
+    decreases e - p
+{
+    if p >= e {
+        if p == e { Some(out) } else { None }
+    } else if k >= 8 {
+        dec_toks(s, p + 1, e, s[p], 0, out, start)
+    } else if !flag_bit(flags, k) {
+        dec_toks(s, p + 1, e, flags, k + 1, out.push(s[p]), start)
+    } else if p + 2 > e {
+        None
+    } else {
+        let tok = u16_at(s, p);
+        let d = out.len() - start;
+        let bc = copy_bit_count(d);
+        if tok_off(tok, bc) > d { None } else { dec_toks(s, p + 2, e, flags, k + 1, copy_bytes(out, tok_off(tok, bc), tok_len(tok, bc)), start) }
+    }
+}
+
+/// CompressedChunk* from position i (a chunk boundary) to the end of the container
+pub open spec fn dec_chunks(s: Seq<u8>, i: int, out: Seq<u8>) -> Option<Seq<u8>>
+    decreases s.len() - i
+{
+    if i >= s.len() {
+        if i == s.len() { Some(out) } else { None }
+    } else if i + 2 > s.len() {
+        None
+    } else {
+        let h = u16_at(s, i);
+        let e = i + hdr_size(h) + 3;
+        if hdr_sig(h) != 3 || e > s.len() {
+            None
+        } else if !hdr_compressed(h) {
+            // raw chunk: exactly 4096 data bytes
+            if hdr_size(h) != 4095 { None } else { dec_chunks(s, e, out + s.subrange(i + 2, e)) }
+        } else {
+            match dec_toks(s, i + 2, e, 0, 8, out, out.len() as int) {
+                Some(o2) => if o2.len() - out.len() > 4096 { None } else { dec_chunks(s, e, o2) },
+                None => None,
+            }
+        }
+    }
+}
+
+/// CompressedContainer = SignatureByte 0x01 ++ CompressedChunk*
+pub open spec fn decode_opt(s: Seq<u8>) -> Option<Seq<u8>> {
+    if s.len() >= 1 && s[0] == 1 { dec_chunks(s, 1, Seq::<u8>::empty()) } else { None }
+}
+pub open spec fn valid_container(s: Seq<u8>) -> bool { decode_opt(s) is Some }
+pub open spec fn decode(s: Seq<u8>) -> Seq<u8> { decode_opt(s).unwrap() }
+
+/// bit index reached when the token stream [p, e) is exhausted (8 = the last FlagByte had all of its 8 tokens)
+pub open spec fn end_k(s: Seq<u8>, p: int, e: int, flags: u8, k: int) -> int
+    decreases e - p
+{
+    if p >= e { k }
+    else if k >= 8 { end_k(s, p + 1, e, s[p], 0) }
+    else if !flag_bit(flags, k) { end_k(s, p + 1, e, flags, k + 1) }
+    else { end_k(s, p + 2, e, flags, k + 1) }
+}
+/// no compressed chunk that is followed by another chunk ends on a full group of 8 tokens
+pub open spec fn no_full_group_boundary(s: Seq<u8>, i: int) -> bool
+    decreases s.len() - i
+{
+    if i + 2 > s.len() { true } else {
+        let h = u16_at(s, i);
+        let e = i + hdr_size(h) + 3;
+        if e >= s.len() { true } else { (hdr_compressed(h) ==> end_k(s, i + 2, e, 0, 8) != 8) && no_full_group_boundary(s, e) }
+    }
+}
+
+proof fn lemma_copy_small(out: Seq<u8>, off: int, n: int)
+    requires 0 <= n <= off <= out.len(),
+    ensures copy_bytes(out, off, n) == out + out.subrange(out.len() - off, out.len() - off + n),
+    decreases n,
+{
+    if n == 0 {
+        assert(out + out.subrange(out.len() - off, out.len() - off) =~= out);
+    } else {
+        let o1 = out.push(out[out.len() - off]);
+        lemma_copy_small(o1, off, n - 1);
+        assert(o1 + o1.subrange(o1.len() - off, o1.len() - off + n - 1) =~= out + out.subrange(out.len() - off, out.len() - off + n));
+    }
+}
+
+proof fn lemma_copy_add(out: Seq<u8>, off: int, a: int, b: int)
+    requires 0 <= a, 0 <= b, 1 <= off <= out.len(),
+    ensures copy_bytes(out, off, a + b) == copy_bytes(copy_bytes(out, off, a), off, b),
+    decreases a,
+{
+    if a > 0 {
+        lemma_copy_add(out.push(out[out.len() - off]), off, a - 1, b);
+    }
+}
+
+proof fn lemma_copy_len(out: Seq<u8>, off: int, n: int)
+    requires 0 <= n, 1 <= off <= out.len(),
+    ensures copy_bytes(out, off, n).len() == out.len() + n,
+    decreases n,
+{
+    if n > 0 { lemma_copy_len(out.push(out[out.len() - off]), off, n - 1); }
+}
+
+pub open spec fn p2i(j: int) -> nat { p2(j as nat) }
+/// `(4..16).find(|i| POWER_2[*i] >= d)` (first hit) is BitCount
+proof fn lemma_bit_count(d: int, b: int)
+    requires 4 <= b < 16, p2(b as nat) >= d, forall|j: int| 4 <= j < b ==> #[trigger] p2i(j) < d,
+    ensures copy_bit_count(d) == b,
+{
+    reveal_with_fuel(bit_count_from, 14);
+    lemma_p2_vals();
+    assert(p2i(4) < d || b == 4);
+    assert(b > 5 ==> p2i(5) < d); assert(b > 6 ==> p2i(6) < d); assert(b > 7 ==> p2i(7) < d); assert(b > 8 ==> p2i(8) < d);
+    assert(b > 9 ==> p2i(9) < d); assert(b > 10 ==> p2i(10) < d); assert(b > 11 ==> p2i(11) < d); assert(b > 12 ==> p2i(12) < d);
+    assert(b > 13 ==> p2i(13) < d); assert(b > 14 ==> p2i(14) < d);
+}
+
+proof fn lemma_flag_bit(f: u8, k: i32)
+    requires 0 <= k < 8
+    ensures ((f & (1u8 << k)) == 0) == !flag_bit(f, k as int)
+{
+    reveal_with_fuel(p2, 10);
+    if k == 0 { assert(((f & (1u8 << 0i32)) == 0) == ((f / 1) % 2 == 0)) by (bit_vector); }
+    else if k == 1 { assert(((f & (1u8 << 1i32)) == 0) == ((f / 2) % 2 == 0)) by (bit_vector); }
+    else if k == 2 { assert(((f & (1u8 << 2i32)) == 0) == ((f / 4) % 2 == 0)) by (bit_vector); }
+    else if k == 3 { assert(((f & (1u8 << 3i32)) == 0) == ((f / 8) % 2 == 0)) by (bit_vector); }
+    else if k == 4 { assert(((f & (1u8 << 4i32)) == 0) == ((f / 16) % 2 == 0)) by (bit_vector); }
+    else if k == 5 { assert(((f & (1u8 << 5i32)) == 0) == ((f / 32) % 2 == 0)) by (bit_vector); }
+    else if k == 6 { assert(((f & (1u8 << 6i32)) == 0) == ((f / 64) % 2 == 0)) by (bit_vector); }
+    else { assert(((f & (1u8 << 7i32)) == 0) == ((f / 128) % 2 == 0)) by (bit_vector); }
+}
+
+/// what the validity of the container says about the compressed chunk at cs (ghost constants of one outer iteration)
+pub open spec fn chunk_facts(sq: Seq<u8>, cs: int, e: int, full: Option<Seq<u8>>, tgt: Option<Seq<u8>>, ek: int, base_len: int) -> bool {
+    tgt is Some && full == dec_chunks(sq, e, tgt.unwrap()) && cs + 3 <= e <= sq.len() && no_full_group_boundary(sq, e)
+        && (e < sq.len() ==> ek != 8) && tgt.unwrap().len() - base_len <= 4096
+}
+
 //@@ fn src/cfb.rs decompress_stream props=C18 entry ret=r
 //@@ sig
+    ensures
+        //# C18.decode
+        valid_container(s@) ==> (r matches Ok(v) && v@ == decode(s@)),
+        //# C18.decode_unless_full_group_boundary
+        valid_container(s@) && no_full_group_boundary(s@, 1) ==> (r matches Ok(v) && v@ == decode(s@)),
+        //# C18.bad_container_signature_rejected
+        s@.len() >= 1 && s@[0] != 1 ==> r is Err,
+//@@ body
+    proof { axiom_slice_len_isize(s); }
+//@@ closure 0
+ -> (b: bool) requires *i < 16, ensures b == (POWER_2[*i as int] >= decomp_len),
+//@@ before /let mut res = /
+    proof {
+        lemma_p2_vals();
+        assert(1usize << 1 == 2 && 1usize << 2 == 4 && 1usize << 3 == 8 && 1usize << 4 == 16 && 1usize << 5 == 32 && 1usize << 6 == 64 && 1usize << 7 == 128
+            && 1usize << 8 == 256 && 1usize << 9 == 512 && 1usize << 10 == 1024 && 1usize << 11 == 2048 && 1usize << 12 == 4096 && 1usize << 13 == 8192 && 1usize << 14 == 16384 && 1usize << 15 == 32768) by (bit_vector);
+        assert(is_p2_table(POWER_2));
+    }
+//@@ before /let mut i = 1/
+    let ghost sq = s@;
+    let ghost full = dec_chunks(sq, 1, Seq::<u8>::empty());
+    let ghost ok = full is Some && no_full_group_boundary(sq, 1);
+    proof { assert(res@ =~= Seq::<u8>::empty()); }
 //@@ loop 0
-        invariant 1 <= i,
-        decreases s@.len() - i,
+        invariant 1 <= i, s@.len() <= isize::MAX, is_p2_table(POWER_2), sq == s@,
+            ok ==> (full == dec_chunks(sq, i as int, res@) && no_full_group_boundary(sq, i as int)),
+        decreases (if i < s@.len() { s@.len() - i } else { 0 }),
+//@@ after /let chunk_flag = [^;]*;/
+        let ghost cs = i - 2;
+        let ghost e = cs + (chunk_size as int) + 3;
+        let ghost base = res@;
+        let ghost tgt = dec_toks(sq, cs + 2, e, 0u8, 8, base, start as int);
+        let ghost ek = end_k(sq, cs + 2, e, 0u8, 8);
+        proof {
+            assert(chunk_header & 0x0FFF == chunk_header % 4096) by (bit_vector);
+            assert((chunk_header & 0x7000) >> 12 == (chunk_header / 4096) % 8) by (bit_vector);
+            assert((chunk_header & 0x8000) >> 15 == chunk_header / 32768) by (bit_vector);
+            if ok {
+                assert(cs + 2 <= sq.len());
+                assert(s@.subrange(cs, s@.len() as int)[0] == sq[cs] && s@.subrange(cs, s@.len() as int)[1] == sq[cs + 1]);
+                assert(chunk_header as int == u16_at(sq, cs));
+                assert(hdr_sig(chunk_header as int) == 3);
+                assert(e <= sq.len());
+                if chunk_flag != 0 {
+                    assert(hdr_compressed(chunk_header as int));
+                    assert(chunk_facts(sq, cs, e, full, tgt, ek, start as int));
+                } else {
+                    assert(!hdr_compressed(chunk_header as int));
+                    assert(hdr_size(chunk_header as int) == 4095);
+                    assert(full == dec_chunks(sq, e, base + sq.subrange(cs + 2, e)));
+                    assert(no_full_group_boundary(sq, e));
+                }
+            }
+        }
+//@@ after /i \+= 4096;/
+            proof { if ok { assert(s@.subrange(cs + 2, e) == sq.subrange(cs + 2, e)); } }
+//@@ before /let start = /
+        let ghost i_chunk = i;
 //@@ loop 1
-                invariant true,
-                decreases s@.len() - i,
+                invariant_except_break
+                    chunk_len <= chunk_size + 2,
+                    res@.len() - start <= 8194 + 5 * chunk_len,
+                    ok ==> (tgt == dec_toks(sq, i as int, e, 0u8, 8, res@, start as int) && ek == end_k(sq, i as int, e, 0u8, 8)),
+                invariant
+                    1 <= i, i_chunk <= i, s@.len() <= isize::MAX, is_p2_table(POWER_2), chunk_size <= 4095, start <= res@.len(), sq == s@,
+                    chunk_len == i - (cs + 2), e == cs + chunk_size + 3,
+                    ok ==> chunk_facts(sq, cs, e, full, tgt, ek, start as int),
+                ensures
+                    ok ==> (i == e && tgt == Some(res@)),
+                decreases (if i < s@.len() { s@.len() - i } else { 0 }),
 //@@ loop 2 it
-                    invariant true,
+                    invariant
+                        1 <= i, i_top + 1 <= i <= s@.len(), i_chunk <= i_top,
+                        i_top < s@.len() <= isize::MAX, is_p2_table(POWER_2), chunk_size <= 4095, start <= res@.len(), sq == s@,
+                        chunk_len <= chunk_size + 3, it.index@ > 0 ==> chunk_len <= chunk_size + 2,
+                        res@.len() - start <= 8194 + 5 * chunk_len,
+                        it.seq().len() == 8, forall|k: int| 0 <= k < 8 ==> it.seq()[k] == k,
+                        chunk_len == i - (cs + 2), e == cs + chunk_size + 3,
+                        ok ==> chunk_facts(sq, cs, e, full, tgt, ek, start as int),
+                        ok ==> (tgt == dec_toks(sq, i as int, e, bit_flags, it.index@ as int, res@, start as int) && ek == end_k(sq, i as int, e, bit_flags, it.index@ as int)),
+//@@ before /let bit_flags = /
+                let ghost i_top = i;
+//@@ after /chunk_len \+= 1;/#0of2
+                proof {
+                    if ok {
+                        // the chunk's data is not exhausted here: a next FlagByte is really due
+                        assert(i_top <= e);
+                        if i_top == e {
+                            assert(end_k(sq, i_top as int, e, 0u8, 8) == 8);
+                            assert(false);
+                        }
+                        assert(dec_toks(sq, i_top as int, e, 0u8, 8, res@, start as int) == dec_toks(sq, i_top + 1, e, sq[i_top as int], 0, res@, start as int));
+                        assert(end_k(sq, i_top as int, e, 0u8, 8) == end_k(sq, i_top + 1, e, sq[i_top as int], 0));
+                    }
+                }
+//@@ before /if \(bit_flags & /
+                    proof {
+                        lemma_flag_bit(bit_flags, bit_index);
+                        assert(bit_index == it.index@);
+                        if ok { assert(i < e); }
+                    }
+//@@ before /res\.push\(s\[i\]/
+                        proof {
+                            //# C06.literal_past_end
+                            assert(i < s@.len());
+                        }
+//@@ before /let token = /
+                        let ghost i_tok = i;
+                        proof {
+                            //# C06.copy_token_past_end
+                            assert(i + 2 <= s@.len());
+                            if ok { assert(i + 2 <= e); }
+                        }
+//@@ before /let bit_count = /
+                        proof {
+                            lemma_p2_vals();
+                            let ghost r0 = (4usize..16usize).remaining();
+                            assert(r0.len() == 12 && r0[0] == 4 && r0[1] == 5 && r0[2] == 6 && r0[3] == 7 && r0[4] == 8 && r0[5] == 9 && r0[6] == 10
+                                && r0[7] == 11 && r0[8] == 12 && r0[9] == 13 && r0[10] == 14 && r0[11] == 15);
+                            assert(POWER_2[15] == 32768);
+                        }
+//@@ after /let offset = [^;]*;/
+                        proof {
+                            lemma_p2_vals();
+                            lemma_tok_bits(token, bit_count as u16);
+                            assert(len_mask == 0xFFFFu16 >> (bit_count as u16));
+                            assert(len == tok_len(token as int, bit_count as nat));
+                            assert(offset == tok_off(token as int, bit_count as nat));
+                            assert(POWER_2[bit_count as int] == p2(bit_count as nat));
+                            // decomp_len > 4096 ==> bit_count >= 13 ==> len <= 10
+                            assert(decomp_len > 4096 ==> len <= 10);
+                            assert(len <= 4098);
+                            assert(len <= offset ==> len <= 4096);
+                            assert(offset < len ==> offset <= 4096);
+                            assert(forall|j: int| 4 <= j < bit_count ==> POWER_2[j] < decomp_len);
+                            assert forall|j: int| 4 <= j < bit_count implies #[trigger] p2i(j) < decomp_len by { assert(POWER_2[j] == p2(j as nat)); }
+                            lemma_bit_count(decomp_len as int, bit_count as int);
+                            if ok {
+                                assert(s@.subrange(i_tok as int, s@.len() as int)[0] == sq[i_tok as int] && s@.subrange(i_tok as int, s@.len() as int)[1] == sq[i_tok + 1]);
+                                assert(token as int == u16_at(sq, i_tok as int));
+                                assert(offset <= decomp_len);
+                            }
+                        }
 //@@ loop 3
-                            invariant true,
+                            invariant
+                                1 <= offset, 1 <= len <= len0, res@.len() + len == res0.len() + len0,
+                                offset < len0 ==> offset <= 4096,
+                                ok ==> (offset <= res0.len() && copy_bytes(res0, offset as int, len0 as int) == copy_bytes(res@, offset as int, len as int)),
                             decreases len,
+//@@ before /while len > offset/
+                        let ghost len0 = len;
+                        let ghost res0 = res@;
+//@@ before /buf\[\.\.offset\]\s*\.copy/
+                            let ghost r1 = res@;
+//@@ before /len -= offset/
+                            proof {
+                                if ok {
+                                    lemma_copy_small(r1, offset as int, offset as int);
+                                    lemma_copy_add(r1, offset as int, offset as int, len - offset);
+                                    assert(res@ =~= r1 + r1.subrange(r1.len() - offset, r1.len() as int));
+                                }
+                            }
+//@@ before /buf\[\.\.len\]\s*\.copy/
+                        let ghost r2 = res@;
+//@@ after /res\.extend_from_slice\(&buf\[\.\.len\]\);/
+                        proof {
+                            if ok {
+                                lemma_copy_small(r2, offset as int, len as int);
+                                assert(res@ =~= r2 + r2.subrange(r2.len() - offset, r2.len() - offset + len));
+                                assert(res@ == copy_bytes(res0, offset as int, len0 as int));
+                            }
+                        }
 //@@ end
 
 } // verus!
